@@ -228,6 +228,9 @@ def _run_one(tape, tier, prop):
                 n = 1 + t.draw(total + 1)
             if n >= 1:
                 Ns.add(n)
+        if t.chance(1, 3):
+            # --limit is an unbounded integer: limits beyond the machine word mean "everything"
+            Ns.add(t.choice([2 ** 63 - 1, 2 ** 63, 10 ** 19, 2 ** 64, 10 ** 30, 2 ** 31, 2 ** 32]))
         Ns = sorted(Ns)
         inside = any(n not in bounds and n < total for n in Ns)
         lines0 = guesser.split_lines(text)
